@@ -602,4 +602,77 @@ def endLine (s : TState) (gasLeft : Nat) (status : String) (trunc : Bool) : TSta
     else if gasLeft == g then (s, "ok") else (s, "bad:gasleft")
 
 end Trace
+/-! ## Part C — the precompiled contracts: `RequiredGas` (pure arithmetic, transcribed; the Go bodies are pinned by hash in
+`Gen.EvmTable.requiredGasBody_*`) and the charge rule of `RunPrecompiledContract` -/
+namespace Pre
+
+/-- `RunPrecompiledContract`: `gas := p.RequiredGas(input); if contract.UseGas(gas) { return p.Run(input) }; return nil, ErrOutOfGas`
+    — `none`: out of gas, nothing is deducted here (the call wrapper burns the frame's gas) -/
+def runPre (gas required : Nat) : Option Nat := if gas < required then none else some (gas - required)
+
+/-- `uint64(len(input)+31)/32*perWord + base` -/
+def wordGas (base perWord len : Nat) : Nat := (len + 31) / 32 * perWord + base
+
+def bytesNat (bs : List UInt8) : Nat := bs.foldl (fun a b => a * 256 + b.toNat) 0
+
+/-- `getData(data, start, size)`: the slice `[start, start+size)` clipped to the data, right-padded with zeros to `size` -/
+def getData (data : List UInt8) (start size : Nat) : List UInt8 :=
+  let s := min start data.length
+  let e := min (s + size) data.length
+  let sl := (data.drop s).take (e - s)
+  sl ++ List.replicate (size - sl.length) 0
+
+def bitLen (n : Nat) : Nat := if n = 0 then 0 else Nat.log2 n + 1
+
+/-- the multiplication complexity of EIP-198 as `bigModExp.RequiredGas` computes it -/
+def multComplexity (x : Nat) : Nat :=
+  if x ≤ 64 then x * x
+  else if x ≤ 1024 then x * x / 4 + (96 * x - 3072)
+  else x * x / 16 + (480 * x - 199680)
+
+/-- `if gas.BitLen() > 64 { return math.MaxUint64 }; return gas.Uint64()` -/
+def capU64 (g : Nat) : Nat := if 2 ^ 64 ≤ g then 2 ^ 64 - 1 else g
+
+/-- `(*bigModExp).RequiredGas`: big-integer arithmetic on the three 32-byte length headers, capped at MaxUint64 -/
+def modexpGas (input : List UInt8) : Nat :=
+  let baseLen := bytesNat (getData input 0 32)
+  let expLen := bytesNat (getData input 32 32)
+  let modLen := bytesNat (getData input 64 32)
+  let body := input.drop 96
+  let expHead :=
+    if body.length ≤ baseLen then 0
+    else if expLen > 32 then bytesNat (getData body baseLen 32)
+    else bytesNat (getData body baseLen expLen)
+  let msb := bitLen expHead - 1
+  let adj := (if expLen > 32 then 8 * (expLen - 32) else 0) + msb
+  capU64 (multComplexity (max modLen baseLen) * max adj 1 / Gen.EvmTable.modExpQuadCoeffDiv)
+
+/-- `RequiredGas` by contract type (the names of contracts.go) -/
+def requiredGas (ty : String) (input : List UInt8) : Option Nat :=
+  open Gen.EvmTable in
+  if ty == "ecrecover" then some ecrecoverGas
+  else if ty == "sha256hash" then some (wordGas sha256BaseGas sha256PerWordGas input.length)
+  else if ty == "ripemd160hash" then some (wordGas ripemd160BaseGas ripemd160PerWordGas input.length)
+  else if ty == "dataCopy" then some (wordGas identityBaseGas identityPerWordGas input.length)
+  else if ty == "bigModExp" then some (modexpGas input)
+  else if ty == "bn256Add" then some bn256AddGas
+  else if ty == "bn256ScalarMul" then some bn256ScalarMulGas
+  else if ty == "bn256Pairing" then some (bn256PairingBaseGas + input.length / 192 * bn256PairingPerPointGas)
+  else none
+
+/-- the answer to `pre set=… addr=… gas=… in=…` -/
+def answer (set : String) (addr gas : Nat) (input : List UInt8) : String :=
+  let tab := if set == "b" then Gen.EvmTable.precompiledContractsByzantium else Gen.EvmTable.precompiledContractsHomestead
+  match tab.find? (fun p => p.1 == addr) with
+  | none => "none"
+  | some (_, ty) =>
+    match requiredGas ty input with
+    | none => "bad:unknown-contract-type"
+    | some req =>
+      match runPre gas req with
+      | none => "oog"
+      | some left => s!"charged={gas - left}"
+
+end Pre
+
 end Model.Evm
